@@ -7,7 +7,7 @@ from checks import common_a as ca
 from worlds.mailbox import MailboxWorld, _msg_type
 
 PROP = "C02"
-LEVEL = "exploration"
+LEVEL = "fault_enumeration"
 QUICK_S = 45
 THOROUGH_S = 900
 TECHNIQUE = ("deterministic simulation with a Byzantine mailbox layer: tamper "
@@ -45,7 +45,163 @@ def configs(tier):
     return [{"spake": "real", "reorder_heavy": i % 2 == 1} for i in range(4)]
 
 
+SWEEP_OPS = (
+    [("flip", x) for x in ("first", "mid", "last")] +
+    [("truncate", x) for x in ("empty", "half", "minus1")] +
+    [("extend", 1), ("drop",), ("dup",), ("side_to_peer",), ("side_to_own",)] +
+    [("phase_set", p) for p in ("0", "1", "2", "version", "pake", "9")] +
+    [("cross_phase", j) for j in range(4)] +
+    [("reflect", j) for j in range(4)] +
+    [("inject_body", p) for p in ("0", "1", "version")] +
+    [("inject_pake", j) for j in range(3)])
+
+
+def sweep(tier):
+    """Enumerated part: every tamper operation x every position of the stream
+    of `message` events sent to each client in a fixed honest exchange."""
+    out = []
+    scheds = 1 if tier == "quick" else 4
+    for sched in range(scheds):
+        for target in ("A", "B"):
+            for k in range(8):
+                for op in SWEEP_OPS:
+                    out.append({"spake": "real", "sweep": {
+                        "target": target, "k": k, "op": list(op),
+                        "sched": sched}})
+    return out
+
+
+def run_sweep_case(seed, tape, opts):
+    """Fixed honest exchange (2 messages each way), one tamper operation at one
+    position; only the schedule comes from the tape."""
+    sw = opts["sweep"]
+    w = MailboxWorld(tape, opts)
+    sim = w.sim
+    a = w.add_client("A", api="delegate", versions={"v": "A"})
+    b = w.add_client("B", api="deferred", versions={"v": "B"})
+    w.mode = "sweep"
+    code = "7-sweep-code"
+    for c, peer in ((a, "B"), (b, "A")):
+        c.script = [("set_code", code),
+                    ("send", ("%s-msg-0" % c.name).encode()),
+                    ("send", ("%s-msg-1" % c.name).encode()),
+                    ("wait_all_delivered_or_steps", peer, 4000), ("close",)]
+    count = {"n": 0}
+    fired = []
+    target = w.by_name(sw["target"])
+    op = sw["op"]
+
+    def other_side(c):
+        return (b if c is a else a).side
+
+    def tamper(end, m):
+        # server -> client direction only, `message` events to the target
+        if end.role != "c" or end.link.owner is not target or \
+                _msg_type(m) != "message":
+            return m
+        k = count["n"]
+        count["n"] += 1
+        if k != sw["k"]:
+            return m
+        d = json.loads(m[1:].decode())
+        body = bytes.fromhex(d["body"])
+        stored = [x for x in w.server.stored_messages()]
+        kind = op[0]
+        out = None
+        if kind == "flip":
+            if not body:
+                return m
+            pos = {"first": 0, "mid": len(body) // 2,
+                   "last": len(body) - 1}[op[1]]
+            body = body[:pos] + bytes([body[pos] ^ 0x01]) + body[pos + 1:]
+            d["body"] = body.hex()
+        elif kind == "truncate":
+            n = {"empty": 0, "half": len(body) // 2,
+                 "minus1": max(0, len(body) - 1)}[op[1]]
+            d["body"] = body[:n].hex()
+        elif kind == "extend":
+            d["body"] = (body + b"\x00").hex()
+        elif kind == "drop":
+            fired.append((k, kind, d["phase"]))
+            sim.note("fault.mbox_tamper.sweep_" + kind)
+            return None
+        elif kind == "dup":
+            out = [m, m]
+        elif kind == "side_to_peer":
+            d["side"] = other_side(target)
+        elif kind == "side_to_own":
+            d["side"] = target.side
+        elif kind == "phase_set":
+            if d["phase"] == op[1]:
+                return m
+            d["phase"] = op[1]
+        elif kind == "cross_phase":
+            srcs = [x for x in stored
+                    if x["side"] == d["side"] and x["phase"] != d["phase"]]
+            if op[1] >= len(srcs):
+                return m
+            d["body"] = srcs[op[1]]["body"]
+        elif kind == "reflect":
+            own = [x for x in stored if x["side"] == target.side]
+            if op[1] >= len(own):
+                return m
+            x = own[op[1]]
+            out = [m, b"M" + json.dumps(
+                {"type": "message", "side": other_side(target),
+                 "phase": x["phase"], "body": x["body"], "id": "r"}).encode()]
+        elif kind == "inject_body":
+            out = [b"M" + json.dumps(
+                {"type": "message", "side": other_side(target),
+                 "phase": op[1], "body": (b"fabricated" * 5).hex(),
+                 "id": "f"}).encode(), m]
+        elif kind == "inject_pake":
+            pk = (b'{"pake_v1": "%s"}' % (b"\x53" + b"\x11" * 32).hex().encode(),
+                  b'{}', b'junk')[op[1]]
+            out = [b"M" + json.dumps(
+                {"type": "message", "side": other_side(target),
+                 "phase": "pake", "body": pk.hex(), "id": "f"}).encode(), m]
+        fired.append((k, kind, d.get("phase")))
+        sim.note("fault.mbox_tamper.sweep_" + kind)
+        sim.ev("tamper", target.name, kind, k)
+        if out is not None:
+            return out
+        return b"M" + json.dumps(d).encode()
+    sim.on_link = lambda link: setattr(link, "tamper", tamper)
+    prefix = ca.PrefixOracle(a, b)
+    viol = []
+
+    def on_app_event(c, kind, value):
+        peer = b if c is a else a
+        if kind == "versions" and value != peer.versions:
+            viol.append({"key": "C02.versions_forged",
+                         "clause": "delivered versions equal the peer's "
+                                   "app_versions",
+                         "detail": "%s got versions %r, peer passed %r (sweep "
+                                   "%r)" % (c.name, value, peer.versions, sw)})
+    w.on_app_event = on_app_event
+    sim.after_step = prefix.step
+
+    def done():
+        return bool(viol or prefix.violation) or \
+            (a.is_closed and b.is_closed and w.scripts_done())
+    sim.run(6000, until=done)
+    w.heal()
+    sim.run(6000, until=done, max_time=900)
+    w.finish()
+    v = (viol[0] if viol else None) or prefix.violation
+    if v and v["key"] == "C03.prefix":
+        v = dict(v, key="C02.ledger",
+                 clause="every delivered plaintext was encrypted by the peer "
+                        "for exactly that phase; never manipulated content, "
+                        "never a phase twice",
+                 detail=v["detail"] + " | sweep: %r fired %r" % (sw, fired))
+    return ca.result(sim, w, v, bool(fired), seed,
+                     extra_sample={"sweep": sw, "fired": fired})
+
+
 def run_one(seed, tape, opts):
+    if opts.get("sweep"):
+        return run_sweep_case(seed, tape, opts)
     w, a, b = ca.build_pair(tape, opts, max_msgs=4)
     sim = w.sim
     # unique, attributable plaintexts
